@@ -106,7 +106,12 @@ theorem hrefs_targets_defined (w : World) (st : St) (hg : gen w = .ok st) (c dst
 
 /-- HTML level: if every destination of the table is `#x` for an anchor `x` of the parsed document
 (i.e. the emitted `<a id="x">` did arrive as raw HTML), and the document's own fragment links are
-defined, then every fragment link of the rewritten document has its anchor. -/
+defined, then every fragment link of the rewritten document has its anchor.
+Scope: the hypothesis `hanch` ASSUMES that every target of the table already has an anchor in the parsed
+document — that is exactly the part markdown parsing can break (`hrefs_defined_html_full_false`);
+`hrefs_targets_defined` only puts the anchor text into what the generator pushed.  The theorem says the
+link pass adds no dangling fragment beyond that assumption; the assumption itself is checked on the real
+`.html` of every world of a run (monitor `hrefsDefined`), not proved. -/
 theorem hrefs_defined_html_partial (hrefs : List (Str × Str)) (evs : List Ev)
     (hanch : ∀ c dst, lookup hrefs c = some dst → ∃ x, dst = '#' :: x ∧ x ∈ ids (anchorsOf evs))
     (hin : hrefsDefined (anchorsOf evs) = true) :
@@ -152,7 +157,11 @@ theorem hrefs_defined_html_full_false :
 /-- Every line of every doc comment the generator has a `docs(..)` call for — the world's, imported
 interfaces', all types', members' and functions' — appears in the `.md` without its surrounding
 whitespace, character for character, whatever it contains (`push_str_literal`: braces, `//`,
-markdown and HTML metacharacters are not interpreted by the buffer).  All abstract worlds. -/
+markdown and HTML metacharacters are not interpreted by the buffer).  All abstract worlds.
+Scope: the statement is per line — each trimmed line occurs SOMEWHERE in the `.md` as a contiguous piece of
+text; it does not say that the lines of one comment occur in order, next to each other, or where they belong
+(under their item).  Order and placement are covered by the byte-for-byte `.md` correspondence with the
+model, not by this theorem. -/
 theorem docs_verbatim_partial (w : World) (st : St) (hg : gen w = .ok st) :
     ∀ d ∈ printedDocs w, ∀ l ∈ lines d, trim l <:+: st.src.s := by
   intro d hd l hl
